@@ -239,6 +239,13 @@ def handleCtl (args : List Val) : String := Id.run do
       let some b' := b.asBool? | return "bad-op"
       c := { c with earlyExit := b' }
       outs := outs.push "(exit)"
+    | .list [.sym "setevals", .int n] =>         -- DE2 only: `_fcalls[0] = len(evalmon)` (counter re-read from the monitor, F21b)
+      c := { c with evals := n.toNat }
+      outs := outs.push "(setevals)"
+    | .list [.sym "stepmon", nw] =>
+      let some n' := nw.asBool? | return "bad-op"
+      c := c.setStepMon n'
+      outs := outs.push s!"(stepmon g{c.gens} n{c.nstep})"
     | .list [.sym "finalize"] =>                 -- Finalize(), also reached through every Set* that re-decorates
       c := c.finalize
       outs := outs.push s!"(finalize g{c.gens} n{c.nstep} {pB c.live})"
